@@ -10,6 +10,7 @@ VARIABLE fs
 Ops == [op : {"set_field"}, k : Keys, v : Vals] \cup [op : {"setitem"}, k : Keys, v : {x \o "~" : x \in Vals}]
        \cup [op : {"pop", "delitem", "get", "contains"}, k : Keys, v : {"-"}]
        \cup [op : {"getitem"}, k : Keys \cup Reserved, v : {"-"}]
+Renames == [op : {"rename"}, k : Keys, v : Keys \cup {"new"}]
 
 \* all lists of fields with distinct keys
 RECURSIVE Lists(_)
@@ -19,13 +20,13 @@ Lists(n) == IF n = 0 THEN {<<>>}
 DistinctLists == {l \in Lists(Cardinality(Keys)) : Distinct(l)}
 
 Init == fs \in DistinctLists
-Next == \E op \in Ops :
+Next == \E op \in Ops \cup {r \in Renames : RenameEnabled(fs, r)} :
           LET s == Step(fs, op, Ety, Eid) IN
           /\ fs' = s.fs
           /\ PrintT(ToJson([s |-> fs, i |-> op, t |-> s.fs, r |-> s.res,
                             d |-> ViewDict(s.fs), it |-> ViewItems(s.fs, Ety, Eid)]))
 
-InvRefines == \A op \in Ops : Refines(fs, op, Ety, Eid)
+InvRefines == \A op \in Ops \cup {r \in Renames : RenameEnabled(fs, r)} : Refines(fs, op, Ety, Eid)
 InvViews   == ViewsAgree(fs, Ety, Eid)
 InvDistinct == Distinct(fs)
 =============================================================================
